@@ -18,3 +18,11 @@ def run(ctx):
     run_kernels(ctx, ["K3", "K4", "K3carry", "K5"], "C13")
     from ..rules_ast import record_instance_state_rule
     ctx.guard(record_instance_state_rule, ctx, "C13.no-derived-state", ["__rshift__", "__lshift__"])
+    # records the library itself hands out (assembly products) stay inside the domain on which the above is stated:
+    # text id / name (SeqRecord refuses anything else when the record is rebuilt), a DNA molecule type, and no
+    # feature location that refers to another entry (Biopython never moves those)
+    from ..rules_flow import k17_entry, k18_annotate
+    ctx.guard(k17_entry, ctx, "C13")
+    ctx.guard(k18_annotate, ctx, "C13")
+    from ..rules_ast import location_ref_rule
+    ctx.guard(location_ref_rule, ctx, "C13.location-ref")
